@@ -86,6 +86,14 @@ def _case(draw):
         top.append([f'pc{j}', ['pcall', pid - 1, pid]])
         prods.append([pid - 1, [f'pc{j}'], 'pcall'])
         prods.append([pid, [f'pc{j}', 'p'], 'pinned'])
+    weak_base = draw(st.integers(0, 3)) == 0       # the first document is '--- !weak': later stages decide by priority which nodes still exist
+    if weak_base and any(spec[0] == 'pcall' for _, spec in top):
+        weak_base = False       # (a !force-pinned argument below a !weak root: nested priority tags of different value are not ranked by any statement)
+    # yaml merge keys: further mappings take over the entries of the box ('<<: *box'); what they take over is made afresh for every such
+    # place - except a producer with an alias of its own, which stays the one node it is everywhere
+    if box_items and not weak_base:
+        for j in range(draw(st.sampled_from([0, 0, 1, 2]))):
+            top.append([f'm{j}', ['mergemap', [['w', ['lit', 4]]]]])
     perm_seed = draw(st.lists(st.integers(0, 1000), min_size=8, max_size=8))
     # later stages: act on top-level keys only
     stages = []
@@ -98,10 +106,12 @@ def _case(draw):
             referenced.update(p[0] for p in spec[2])
         elif spec[0] == 'ceval':
             referenced.add(spec[2][0])
-    weak_base = draw(st.integers(0, 3)) == 0       # the first document is '--- !weak': later stages decide by priority which nodes still exist
-    if weak_base and any(spec[0] == 'pcall' for _, spec in top):
-        weak_base = False       # (a !force-pinned argument below a !weak root: nested priority tags of different value are not ranked by any statement)
     acted = set()
+    box_calls = [kk for kk, v in box_items if v[2] == 'call']
+    spec_of = dict((k, spec) for k, spec in top)
+    # a producer standing at several places is one node: what a stage merges *into* it at one place (an argument, '!del {}' emptying it,
+    # another target) happens to the node - acts of that kind are kept to nodes with one place; replacing a place or its holder is another matter
+    shared = set(alias_places({'top': top}))
     for _ in range(draw(st.sampled_from([0, 0, 1, 1, 2, 3] if weak_base else [0, 0, 1, 1, 2]))):
         acts = []
         for k in draw(st.lists(st.sampled_from(keys), max_size=2, unique=True)):
@@ -112,6 +122,27 @@ def _case(draw):
                 a = 'touch' if k == 'box' and k not in acted and draw(st.booleans()) else 'weakscalar'
             if k.startswith('pc'):
                 a = draw(st.sampled_from(['retarget', 'retarget', 'scalar', 'delete']))
+            if k.startswith('m') and box_calls and draw(st.booleans()):
+                # one entry taken over through the merge key gets another argument / another target - at this place only
+                if k not in acted:
+                    entry_pid = next(v[1] for kk, v in box_items if kk == box_calls[0])
+                    acts.append([k, draw(st.sampled_from(['setarg', 'retarget_in'])) if entry_pid not in shared else 'setarg'])
+                    acted.add(k)
+                continue
+            if k.startswith('m') and k in acted:
+                continue        # (one act per merge-key place keeps the model of its history simple)
+            is_call = (spec_of[k][0] == 'prod' and spec_of[k][2] == 'call') or spec_of[k][0] == 'ccall'
+            if spec_of[k][0] == 'prod' and spec_of[k][1] in shared:
+                is_call = False
+            if (is_call or k == 'box' or k.startswith('m')) and k not in referenced and a != 'delete' and draw(st.booleans()):
+                acts.append([k, 'delempty'])      # '!del {}': removes the key - also a function node, which it leaves without arguments
+                acted.add(k)
+                continue
+            if k.startswith('y') and spec_of[k][0] in ('seq', 'map') and a in ('list', 'delmap'):
+                # the container holding a place of a shared producer is replaced: the producer stays what it is at its other places
+                acts.append([k, 'list' if spec_of[k][0] == 'seq' else 'delmap'])
+                acted.add(k)
+                continue
             if a in ('touch', 'weakscalar'):
                 if k in referenced and k in ('box', 'lst'):
                     continue
@@ -121,7 +152,9 @@ def _case(draw):
             acted.add(k)
             if a == 'delete' and k in referenced:
                 a = 'scalar'
-            if k not in ('box', 'lst') and a in ('list', 'delmap'):
+            if k.startswith('m') and a in ('list', 'delmap'):
+                a = 'delmap'
+            elif k not in ('box', 'lst') and a in ('list', 'delmap'):
                 a = 'scalar'        # a list / mapping merged onto a function node updates its arguments (C13), it does not replace it
             if k == 'lst' and a == 'delmap':
                 a = 'list'
@@ -133,6 +166,12 @@ def _case(draw):
                 a = 'list2'
             acts.append([k, a])
         stages.append(acts)
+    mkeys = [k for k in keys if k.startswith('m') and k not in acted]
+    if mkeys and box_calls and draw(st.integers(0, 2)) != 0:
+        # (merge-key places are few among the keys: address one of them on purpose)
+        entry_pid = next(v[1] for kk, v in box_items if kk == box_calls[0])
+        stages.append([[mkeys[0], draw(st.sampled_from(['setarg', 'retarget_in'])) if entry_pid not in shared else 'setarg']])
+        acted.add(mkeys[0])
     if draw(st.integers(0, 9)) == 0:
         # a whole document that resets everything written so far ('--- !del {}'): no producer of the first document exists any more
         stages.insert(draw(st.integers(0, len(stages))), [['*', 'reset']])
@@ -178,6 +217,8 @@ def node_of(spec):
         return {'t': 'alias', 'name': f'n{spec[1]}'}
     if k == 'map':
         return tdoc.mp([(kk, node_of(v)) for kk, v in spec[1]])
+    if k == 'mergemap':
+        return tdoc.mp([('<<', {'t': 'alias', 'name': 'boxa'})] + [(kk, node_of(v)) for kk, v in spec[1]])
     if k == 'seq':
         return tdoc.sq([node_of(v) for v in spec[1]])
     if k == 'xref':
@@ -222,11 +263,12 @@ def order_anchors(doc):
         name = n.get('anchor') or (n['name'] if n['t'] == 'alias' else None)
         if name is not None:
             if name not in used:
-                return {k: v for k, v in n.items() if k != 'anchor'}
-            if name in seen:
+                n = {k: v for k, v in n.items() if k != 'anchor'}
+            elif name in seen:
                 return {'t': 'alias', 'name': name}
-            seen.add(name)
-            return dict(defs[name])
+            else:
+                seen.add(name)
+                n = defs[name]      # (what stands below a definition may hold anchors / aliases of its own)
         out = dict(n)
         if n['t'] == 'map':
             out['items'] = [[k, rec(v)] for k, v in n['items']]
@@ -249,7 +291,17 @@ def alias_places(case):
     return out
 
 
-def stage_doc(acts):
+def merge_entry(case):
+    """the entry of the box (a call producer) which the acts on merge-key places address"""
+    for k, spec in case['top']:
+        if k == 'box':
+            for kk, v in spec[1]:
+                if v[0] == 'prod' and v[2] == 'call':
+                    return kk, v[1]
+    return None, None
+
+
+def stage_doc(acts, entry=None):
     if acts == [['*', 'reset']]:
         return tdoc.mp([], flow=True, **{'del': True})
     items = []
@@ -262,6 +314,12 @@ def stage_doc(acts):
             items.append([k, tdoc.sq([], flow=True)])
         elif a == 'retarget':
             items.append([k, tdoc.mp([('z', tdoc.sc(2))], flow=True, tag=f'!call:vfrec.call_{900 + int(k[2:])}')])
+        elif a == 'delempty':
+            items.append([k, tdoc.mp([], flow=True, **{'del': True})])
+        elif a == 'setarg':
+            items.append([k, tdoc.mp([(entry, tdoc.mp([('extra', tdoc.sc(1))], flow=True))], flow=True)])
+        elif a == 'retarget_in':
+            items.append([k, tdoc.mp([(entry, tdoc.mp([('z', tdoc.sc(2))], flow=True, tag=f'!call:vfrec.call_{950 + int(k[1:])}'))], flow=True)])
         elif a == 'touch':
             items.append([k, tdoc.mp([('touched', tdoc.sc(1))], flow=True)])
         elif a == 'touchlist':
@@ -324,6 +382,53 @@ def survivors(case):
     return out, overwritten
 
 
+def merge_places(case, overwritten):
+    """Model of the merge-key places -> (expected runs of box producers beyond / instead of `survivors`, as a list of (id, kwargs or None);
+    ids whose single expected run has other arguments {id: kwargs}; ids that are alive through a merge-key place only)"""
+    entry, entry_pid = merge_entry(case)
+    aliases = alias_places(case)
+    box = next((spec for k, spec in case['top'] if k == 'box'), None)
+    runs, kw_of, alive = [], {}, set()
+    for k, spec in case['top']:
+        if spec[0] != 'mergemap':
+            continue
+        state, ent, newcall = 'live', 'orig', False
+        for acts in case['stages']:
+            for k2, a in acts:
+                if a == 'reset':
+                    state, newcall = 'gone', False
+                elif k2 != k:
+                    continue
+                elif a == 'setarg':
+                    if state == 'live':
+                        ent = 'extra'
+                elif a == 'retarget_in':
+                    newcall = True
+                    if state == 'live':
+                        ent = 'retargeted'
+                else:
+                    state, newcall = 'gone', False
+        if newcall:
+            runs.append((950 + int(k[1:]), {'z': 2}))
+        if state != 'live':
+            continue
+        for kk, v in box[1]:
+            if v[0] != 'prod':
+                continue
+            pid, kind = v[1], v[2]
+            mine = kk == entry
+            if mine and ent == 'retargeted':
+                continue        # this place holds the new call now
+            if pid in aliases:
+                # a producer with an alias of its own is one node everywhere: this is one more place of it (an argument merged into it here shows everywhere)
+                alive.add(pid)
+                if mine and ent == 'extra':
+                    kw_of[pid] = {'id': pid, 'extra': 1}
+            else:
+                runs.append((pid, ({'id': pid, 'extra': 1} if mine and ent == 'extra' else {'id': pid}) if kind == 'call' else None))
+    return runs, kw_of, alive
+
+
 def _ids(log):
     out = {}
     for e in log:
@@ -344,8 +449,35 @@ def run_case(case):
     base = tdoc.mp([(k, node_of(spec)) for k, spec in case['top']])
     if case.get('weak_base'):
         base['prio'] = -1
-    later = [stage_doc(a) for a in case['stages'] if a]
+    entry, _ = merge_entry(case)
+    if any(spec[0] == 'mergemap' for _, spec in case['top']):
+        for kv in base['items']:
+            if kv[0] == 'box':
+                kv[1]['anchor'] = 'boxa'
+    later = [stage_doc(a, entry) for a in case['stages'] if a]
     S, overwritten = survivors(case)
+    mruns, mkw, malive = merge_places(case, overwritten)
+    S = S | malive
+    expected = {i: 1 for i in S}
+    for i, _ in mruns:
+        expected[i] = expected.get(i, 0) + 1
+    # the arguments the call producers must be run with: as written (id: <n>), plus what a later stage merged into that very node
+    call_prods = {}
+    def _cp(spec):
+        if spec[0] == 'prod' and spec[2] == 'call':
+            call_prods[spec[1]] = True
+        elif spec[0] in ('map', 'seq'):
+            for v in spec[1]:
+                _cp(v[1] if spec[0] == 'map' else v)
+    for _, spec in case['top']:
+        _cp(spec)
+    exp_kw = {}
+    for i in S:
+        if i in call_prods:
+            exp_kw.setdefault(i, []).append(mkw.get(i, {'id': i}))
+    for i, kw in mruns:
+        if kw is not None:
+            exp_kw.setdefault(i, []).append(kw)
     labels = {'stages=%d' % (1 + len(later))}
     # classification
     cons = {}
@@ -375,6 +507,13 @@ def run_case(case):
         from awesomeyaml import EvalContext
         ctx = EvalContext()
         labels.add('shared-eval-context')
+    if any(spec[0] == 'mergemap' for _, spec in case['top']):
+        labels.add('merge-key-place')
+        nontrivial = True
+    for acts in case['stages']:
+        for _, a in acts:
+            if a in ('delempty', 'setarg', 'retarget_in'):
+                labels.add('act=' + a)
     aliases = alias_places(case)
     if aliases:
         labels.add('yaml-alias-of-a-producer')
@@ -398,12 +537,18 @@ def run_case(case):
         if status != 'ok':
             raise Violation(f'C10: build failed: {type(got).__name__}: {str(got)[:500]}{src}')
         counts = _ids(log)
-        for i in S:
-            if counts.get(i, 0) != 1:
-                raise Violation(f'C10: dynamic node {i} ran {counts.get(i, 0)} times (expected exactly once); log ids: {counts}{src}')
-        extra = set(counts) - S
+        for i, n_ in expected.items():
+            if counts.get(i, 0) != n_:
+                raise Violation(f'C10: dynamic node {i} ran {counts.get(i, 0)} times (expected exactly {"once" if n_ == 1 else n_}: one run for every node written or '
+                                f'taken over through a merge key that still exists); log ids: {counts}{src}')
+        extra = set(counts) - set(expected)
         if extra:
             raise Violation(f'C10: dynamic nodes {sorted(extra)} were overwritten or deleted by a later stage but still ran{src}')
+        for i, kws in exp_kw.items():
+            got_kw = sorted((sorted(e[3].items()) for e in log if e[0] == 'call' and e[1] == i), key=repr)
+            if got_kw != sorted((sorted(kw.items()) for kw in kws), key=repr):
+                raise Violation(f'C10: call producer {i} exists with the arguments {kws} but was run with {[dict(x) for x in got_kw]} '
+                                f'(a later stage which does not address it must not change what it is){src}')
         # identity: every consumer saw the object that is in the final config
         def at(path):
             cur = got
@@ -439,4 +584,4 @@ def run_case(case):
 
 
 def sample_repr(case):
-    return [tdoc.render(tdoc.mp([(k, node_of(spec)) for k, spec in case['top']]))] + [tdoc.render(stage_doc(a)) for a in case['stages'] if a]
+    return [tdoc.render(tdoc.mp([(k, node_of(spec)) for k, spec in case['top']]))] + [tdoc.render(stage_doc(a, merge_entry(case)[0])) for a in case['stages'] if a]
